@@ -4,7 +4,7 @@ use super::common::*;
 use crate::checks::c04::step_block_mode;
 use crate::engine::*;
 use crate::mach::{i, j, Emu};
-use crate::prog::{assemble, frag_strategy, prog_strategy, Frag, ProgSpec};
+use crate::prog::{assemble, frag_strategy_focus, prog_strategy_focus, Focus, Frag, ProgSpec};
 use crate::rom::RomImage;
 use proptest::prelude::*;
 use serde_json::{json, Value};
@@ -14,7 +14,7 @@ pub static DEF: CheckDef = CheckDef {
     id: "C18",
     run,
     replay,
-    rule: "the worker's real standard output (fd 1) is redirected to an in-memory file and read back after every case. (a) hand-assembled snippets that write arbitrary values to 0xFF01/0xFF02 through every store form (LDH (n),A; LD (C),A; LD (HL),r; LD (HL),n; LD (HL+),A; LD (nn),A; LD (nn),SP with nn = 0xFF01; PUSH with SP = 0xFF03) with all four combinations of bit 7 in two consecutive SC values and 64 data values each; (b) proptest programs from the C04 generator with extra serial fragments (interrupt handlers that transmit included), (c) the cache-pressure program of C04, which transmits while the translation area fills up, (d) proptest histories of direct writes to 0xFF01/0xFF02 through the bus, also with writes to the neighbouring registers 0xFF00/0xFF03/0xFF04 mixed in (they must not reach the data register). Each is run in three modes: interpreter build instruction-stepped, interpreter build block-stepped, jit build block-stepped. Oracle: the captured bytes must equal, exactly and in order, the value last written to 0xFF01 at the time of each write to 0xFF02 with bit 7 set, computed from the ordered bus-write trace; in the instruction-stepped mode it must also equal the stream the reference CPU (models::sm83 + models::irq on a twin) produces for the same program, which fixes the order of the two bytes of 16-bit stores; nothing else may appear on the stream; all three modes must produce the same stream. Non-trivial = case with at least two transmitting writes and at least one non-transmitting write to 0xFF02 or a write to 0xFF01 that is overwritten before being sent; distinct by hash of (case, mode).",
+    rule: "the worker's real standard output (fd 1) is redirected to an in-memory file and read back after every case. (a) hand-assembled snippets that write arbitrary values to 0xFF01/0xFF02 through every store form (LDH (n),A; LD (C),A; LD (HL),r; LD (HL),n; LD (HL+),A; LD (nn),A; LD (nn),SP with nn = 0xFF01; PUSH with SP = 0xFF03) with all four combinations of bit 7 in two consecutive SC values and 64 data values each; (b) proptest programs from the C04 generator with extra serial fragments (interrupt handlers that transmit included), (c) the cache-pressure program of C04, which transmits while the translation area fills up, (d) proptest histories of direct writes to 0xFF01/0xFF02 through the bus, also with writes to the neighbouring registers 0xFF00/0xFF03/0xFF04 mixed in (they must not reach the data register). Each is run in three modes: interpreter build instruction-stepped, interpreter build block-stepped, jit build block-stepped. Oracle: the captured bytes must equal, exactly and in order, the value last written to 0xFF01 at the time of each write to 0xFF02 with bit 7 set, computed from the ordered bus-write trace; in every mode it must also equal the stream the reference CPU (models::sm83 + models::irq on a twin, stepped by instruction or by block like the mode) produces for the same program - bytes only the CPU's own stores to 0xFF01/0xFF02 can cause, which fixes the order of the two bytes of 16-bit stores and excludes output caused by anything else (a DMA running past OAM, for one); nothing else may appear on the stream; all three modes must produce the same stream. Non-trivial = case with at least two transmitting writes and at least one non-transmitting write to 0xFF02 or a write to 0xFF01 that is overwritten before being sent; distinct by hash of (case, mode).",
     assumptions: &[
         "the expected stream is a function of the machine's own ordered bus writes (hook); that those writes are the program's is C01/C04/C05's subject",
         "the loader's messages (printed before a ROM runs) are not part of the stream: machines are built with Core::from_rom_file",
@@ -140,12 +140,14 @@ fn run_one(c: &Case, mode: u8, cap: &mut Capture) -> Result<(Vec<u8>, Vec<u8>, (
     // 0xFF01/0xFF02 and in which order - including the order of the two bytes of a
     // 16-bit store. Runs before the capture starts (the twin transmits too).
     let mut model_stream: Option<(Vec<u8>, bool)> = None;
-    if mode == 0 && steps > 0 {
+    if steps > 0 && !matches!(c, Case::Pressure(..)) {
         let mut r = crate::refmach::RefMachine::new(i::M::new(&rom));
         let mut ws: Vec<(u16, u8)> = Vec::new();
         let mut complete = true;
         for _ in 0..steps {
-            let info = r.step_instruction();
+            // block-stepped modes: the reference machine in block steps (the order of a
+            // handler's bytes relative to the main program's depends on where interrupts are taken)
+            let info = if mode == 0 { r.step_instruction() } else { r.step_block(100_000) };
             if info.out_of_domain.is_some() {
                 complete = false;
                 break;
@@ -203,8 +205,8 @@ fn run_one(c: &Case, mode: u8, cap: &mut Capture) -> Result<(Vec<u8>, Vec<u8>, (
         let ok = if complete { got == ms } else { got.starts_with(&ms) };
         if !ok {
             return Err(Fail::new(
-                "program-order",
-                format!("instruction-stepped interpreter: standard output carries {}, the reference CPU executing the same program transmits {}", describe(&got), describe(&ms)),
+                if mode == 0 { "program-order" } else { "program-order-block" },
+                format!("{}: standard output carries {}, the reference CPU executing the same program transmits {}", ["instruction-stepped interpreter", "block-stepped interpreter", "block-stepped jit"][mode as usize % 3], describe(&got), describe(&ms)),
             ));
         }
     }
@@ -323,9 +325,10 @@ fn run(rec: &mut Rec) {
     }
     // programs with extra serial traffic
     let steps = rec.ctx.tier.pick(2500u32, 20_000);
-    let cases = rec.ctx.tier.pick(60u32, 3000);
+    let cases = rec.ctx.tier.pick(150u32, 4000);
     let serial = prop::collection::vec((any::<u8>(), prop_oneof![Just(0x81u8), Just(0x80), Just(0x01), Just(0x7f), any::<u8>()], any::<u8>()), 1..6).prop_map(Frag::Serial);
-    let strat = (prog_strategy(24), prop::collection::vec(prop_oneof![3 => serial, 1 => frag_strategy()], 1..8), any::<u8>()).prop_map(|(mut p, extra, isr)| {
+    let focus = Focus { serial: 1, dma: 2, ..Default::default() };
+    let strat = (prog_strategy_focus(24, focus), prop::collection::vec(prop_oneof![3 => serial, 1 => frag_strategy_focus(focus)], 1..8), any::<u8>()).prop_map(|(mut p, extra, isr)| {
         // interleave the extra fragments and make some handler transmit
         for (k, f) in extra.into_iter().enumerate() {
             let at = (k * 3 + 1).min(p.frags.len());
